@@ -203,13 +203,13 @@ pub open spec fn v4_reply_image(cmd: u8, v: AddrV) -> Seq<u8> {
         },
 //@ end
 
-//@ hint SocksResponse::read_v5 before `match atype`
+//@ hint SocksResponse::read_v5 before `let target = match`
         let ghost a0 = old(socket).inp().skip(2);
         proof {
             let s = old(socket).inp();
             assert(s.skip(1).skip(1) =~= a0);
             assert(socket.inp() =~= a0.skip(1));
-            assert(a0.len() >= 1 && a0[0] == atype);
+            assert(a0.len() >= 1);
         }
 //@ end
 
@@ -529,7 +529,7 @@ pub open spec fn nul_field(b: Seq<u8>, k: int) -> bool { first_index_of(b, 0u8, 
         proof {
             assert(q.skip(1).skip(1).skip(1) =~= a0);
             assert(socket.inp() =~= a0.skip(1));
-            assert(a0.len() >= 1 && a0[0] == atype);
+            assert(a0.len() >= 1);
         }
 //@ end
 
